@@ -26,6 +26,7 @@ import (
 	"reflect"
 	"strconv"
 	"strings"
+	"sync"
 	"testing"
 	"time"
 
@@ -274,6 +275,22 @@ func n10Cluster(preload []n09Op) (*n09Env, string) {
 	if err = e.join(n09Op{K: "join", F: 0}); err != nil {
 		e.close()
 		return nil, "cannot start the follower: " + err.Error()
+	}
+	// C10 does not explore joins racing with the leader's first records (C09 does): the workload starts when
+	// the follower's handshake is over
+	for i := 0; i < 1500; i++ {
+		p := e.slots[0].proxy
+		p.mu.Lock()
+		done := p.fullSyncs+p.resumes > 0
+		p.mu.Unlock()
+		mgr := e.leader.inst.slock.replicationManager
+		mgr.glock.Lock()
+		done = done && len(mgr.serverChannels) > 0
+		mgr.glock.Unlock()
+		if done {
+			break
+		}
+		time.Sleep(2 * time.Millisecond)
 	}
 	for i, op := range preload {
 		e.logf("preload #%d %v", i, op)
@@ -549,22 +566,81 @@ func n10GenCase(t *rapid.T, st *vStat) *n10Case {
 	return c
 }
 
+// n10Once runs the case and folds a failure of the cluster preparation (a C09 matter, reported under C09's
+// key) into the ordinary failure fields.
+func n10Once(c *n10Case) n10Out {
+	out := n10RunCase(c)
+	if strings.HasPrefix(out.info.inconclusive, "VIOLATION ") {
+		rest := out.info.inconclusive[10:]
+		out.key = rest
+		if i := strings.IndexByte(rest, '\n'); i > 0 {
+			out.key = rest[:i]
+		}
+		out.err = fmt.Errorf("while preparing the cluster: %s", rest)
+		out.info.inconclusive = ""
+	}
+	return out
+}
+
+var n10Confirmed = struct {
+	sync.Mutex
+	m map[uint64]*n10Out
+}{m: map[uint64]*n10Out{}}
+
+// n10Judge: like n09Judge - a failing script is re-executed on fresh clusters up to n09Reruns times and is a
+// failure only if the same key shows again; otherwise it is filed as an anomaly and not judged.
+func n10Judge(c *n10Case, st *vStat) (out n10Out, judged bool) {
+	fp := c.fingerprint()
+	n10Confirmed.Lock()
+	if prev := n10Confirmed.m[fp]; prev != nil {
+		n10Confirmed.Unlock()
+		return *prev, true
+	}
+	n10Confirmed.Unlock()
+	out = n10Once(c)
+	for i := 0; i < 2 && out.info.inconclusive != ""; i++ {
+		st.Class("inconclusive execution repeated", 1)
+		first := out.info.inconclusive
+		out = n10Once(c)
+		if out.info.inconclusive != "" {
+			out.info.inconclusive = first
+		}
+	}
+	if out.info.inconclusive != "" || out.err == nil {
+		return out, true
+	}
+	if strings.HasPrefix(out.key, "C09:") {
+		// replication did not converge while the cluster was prepared or after the script: that is C09's
+		// property and C09's list of findings (its keys are not passed to a C10 run); noted, not judged here
+		fmt.Printf("VERIF-NOTE C10 case ran into a C09 matter key=%s (judged by the C09 check)\n", out.key)
+		st.Class("case ran into a C09 finding (not judged by C10): "+out.key, 1)
+		return out, false
+	}
+	for i := 1; i <= n09Reruns; i++ {
+		again := n10Once(c)
+		if again.err != nil && again.key == out.key {
+			again.err = fmt.Errorf("%v\n(failed in 2 of %d executions of this case with key %s)", again.err, i+1, again.key)
+			n10Confirmed.Lock()
+			n10Confirmed.m[fp] = &again
+			n10Confirmed.Unlock()
+			return again, true
+		}
+	}
+	n09WriteAnomaly("C10", &n09Anomaly{Test: "TestC10_Forward", Key: out.key, Message: out.err.Error(), Case: c, Reruns: n09Reruns})
+	st.Class("unreproduced anomaly (not judged)", 1)
+	return out, false
+}
+
 func TestC10_Forward(t *testing.T) {
 	st := vstat("TestC10_Forward")
 	rapid.Check(t, func(t *rapid.T) {
 		c := n10GenCase(t, st)
-		out := n10RunCase(c)
-		if strings.HasPrefix(out.info.inconclusive, "VIOLATION ") {
-			// the cluster did not even reach the script: a C09 matter, reported under C09's key
-			rest := out.info.inconclusive[10:]
-			key := rest
-			if i := strings.IndexByte(rest, '\n'); i > 0 {
-				key = rest[:i]
-			}
-			vFail(t, "TestC10_Forward", key, c, "while preparing the cluster: %s", rest)
-		}
+		out, judged := n10Judge(c, st)
 		if out.info.inconclusive != "" {
 			n09Inconclusive("C10: " + out.info.inconclusive)
+		}
+		if !judged {
+			out.err = nil
 		}
 		var cls []string
 		add := func(b bool, s string) {
